@@ -19,6 +19,8 @@ CLAIMED = {
          "Trusted: pyvc, z3 (E-matching, MBQI only for counter-models), the plugin contract of Command.execute for third-party plugins, class invariants of Command/Argument objects, A-LOCALS, A-REC, C20's behavioural contract of Parameter.clean. Obligations over the quantified heap have no concretiser: a regression against the committed ledger is reported with the solver's reason (no-failing-input-found); the bounded graph battery on the real code supplies failing inputs where it can."),
  "C14": ("proof", "Command.run: re-entering a running, unfinished command raises RecursiveModelStructure with no effect and never returns; Program.run: returns => every command finished; lemmas RANK / NO-CYCLE-1..5: a heap where every command is finished has no reference cycle, so a cyclic model can never end in a normal return; recursion is cut at the first re-entry",
          "Trusted: as C01. That the error raised for a cyclic model is RecursiveModelStructure (and not an earlier, unrelated error of the same model) is shown for the re-entry point itself; the bounded battery runs every cyclic digraph on <=3 (thorough: 4) commands on the real code."),
+ "C19": ("other", "expression-level contracts proved by SMT (strings): the registry-selection predicate of Program.__init__ equals the statement's `requested library or its sub-module`; duplicate detection per command name among the selected entries; command_library = name -> class over exactly the selected entries; CommandMeta.__new__ registers iff no entry with the same (module, command name) exists and the registry is monotone. load_commands / the import system / Counter are assumed; a bounded history battery (generated packages with prefix-related names, earlier Program constructions and run-time class definitions, compared with a fresh interpreter) runs on the real code",
+         "Level `other`: the deciding expressions are under contract and proved for all strings, but Program.__init__ as a whole (set iteration, Counter, import side effects) is not symbolically executed; history independence is a lemma over those expression contracts plus the bounded battery."),
  "C20": ("proof", "TYPED / RAISES_ONLY / PURE / DETERMINISTIC / IDEMPOTENT obligations of the ten Parameter.clean bodies over an arbitrary dynamic value (recursive Val datatype), symbolic parameter configuration and program",
          "Trusted: pyvc, z3/cvc5, assumed contracts of int()/float()/str()/isinstance/os.path/dict lookup over Val (pyvc/dyn.py), A-TUPLE, behavioural contract assumed for sub-parameters (proved per class: induction on parameter structure), class invariants of parameter objects. Bounded value-alphabet battery on the real cleaners is labelled bounded."),
 }
